@@ -21,6 +21,10 @@ use nix::sys::socket::{
 
 use crate::wire::unmarshal_context::Cursor;
 
+/// The kernel limits the number of file descriptors that can be passed with one sendmsg call to this amount (SCM_MAX_FD).
+/// The receiving side needs room for all of them, descriptors that do not fit into the control buffer are silently dropped.
+const MAX_FDS_PER_SENDMSG: usize = 253;
+
 /// A lowlevel abstraction over the raw unix socket
 #[derive(Debug)]
 pub struct SendConn {
@@ -523,7 +527,7 @@ impl DuplexConn {
             recv: RecvConn {
                 msg_buf_in: IncomingBuffer::new(),
                 fds_in: Vec::new(),
-                cmsgspace: cmsg_space!([RawFd; 10]),
+                cmsgspace: cmsg_space!([RawFd; MAX_FDS_PER_SENDMSG]),
                 stream,
             },
         })
